@@ -2386,7 +2386,7 @@ class SQLParser:
                 statement_list.append(node.ASTShowTablesStatement())
 
             # 解析 SHOW COLUMNS 语句
-            elif scanner.search_and_move_two_type_str_use_upper("SHOW", "COLUMNS"):
+            elif scanner.search_two_type_str_use_upper("SHOW", "COLUMNS"):
                 statement_list.append(cls._parse_show_columns_statement(scanner, sql_type))
 
             else:
